@@ -62,15 +62,19 @@ def normalise_events(events):
 
 def lex_facts(inst):
     lower = {}
+    stripped = {}
+    hascomma = {}
 
     def walk(items):
         for d in items:
             if d.get("k") == "class":
                 lower[d["name"]] = d["name"].lower()
+                stripped[d["cpp"]] = re.sub("[,:<> ]", "", d["cpp"])
+                hascomma[d["cpp"]] = "," in d["cpp"]
             elif d.get("k") == "namespace":
                 walk(d["items"])
     walk(inst)
-    return {"lower": lower or {"_": "_"}}
+    return {"lower": lower or {"_": "_"}, "stripped": stripped or {"_": "_"}, "hascomma": hascomma or {"_": False}}
 
 
 def observe(text, top=("",), ignore=(), ser=False, module_name="mod", submodules=None, xml=""):
@@ -104,7 +108,7 @@ def validate(batch, timeout=1800):
     obs = []
     for b in batch:
         obs.append({"id": b["id"], "inst": b["inst"], "opts": b["opts"], "events": b["events"],
-                    "includes": b["includes"], "lex": lex_facts(b["inst"])})
+                    "includes": b["includes"], "export": b.get("export", []), "lex": lex_facts(b["inst"])})
     fd, path = tempfile.mkstemp(prefix="pytrace_", suffix=".json")
     try:
         with os.fdopen(fd, "w") as f:
